@@ -81,6 +81,7 @@ type Ctx struct {
 
 const maxDistinct = 4 << 20
 const maxViolationsKept = 40
+const abortAfterViolations = 200
 
 func newCtx(p *Prop, tier string, seed int64, shard, nshards int) *Ctx {
 	return &Ctx{Prop: p, Tier: tier, Seed: seed, Shard: shard, NShards: nshards,
@@ -288,6 +289,15 @@ func (c *Ctx) runAll() {
 		}
 		for idx := c.Shard; idx < n; idx += c.NShards {
 			c.runCase(kd, CaseSeed(c.Seed, kd.Name, idx))
+			c.mu.Lock()
+			stop := c.nviol >= abortAfterViolations
+			c.mu.Unlock()
+			if stop {
+				// the tree is violating; more cases add nothing and leaked goroutines of failed
+				// cases make every further quiescence poll slower
+				fmt.Fprintf(os.Stderr, "aborting child after %d violations\n", abortAfterViolations)
+				return
+			}
 		}
 	}
 }
